@@ -393,7 +393,11 @@ class Program:
     # ------------------------------------------------------------------ attribute tables
     def attr_stores(self, cls: ClassInfo, inherited: bool = True) -> dict[str, list[tuple[FuncInfo, ast.stmt, ast.expr | None]]]:
         """Every `self.a = value` (also annotated / augmented) per attribute, name mangling applied."""
+        cache = self.__dict__.setdefault("_attr_store_cache", {})
+        if (cls.qualname, inherited) in cache:
+            return cache[(cls.qualname, inherited)]
         out: dict[str, list[tuple[FuncInfo, ast.stmt, ast.expr | None]]] = {}
+        cache[(cls.qualname, inherited)] = out
         classes = self.mro(cls) if inherited else [cls]
         for c in classes:
             for f in self.methods_of(c):
@@ -527,7 +531,14 @@ class Program:
 
     # ------------------------------------------------------------------ call resolution
     def resolve_call(self, f: FuncInfo, call: ast.Call) -> list["FuncInfo | str"]:
-        """Resolve a call to repository functions (CHA) or to an external dotted name."""
+        """Resolve a call to repository functions (CHA) or to an external dotted name (memoised per call node)."""
+        cache = self.__dict__.setdefault("_resolve_cache", {})
+        key = (f.qualname, id(call))
+        if key not in cache:
+            cache[key] = self._resolve_call(f, call)
+        return cache[key]
+
+    def _resolve_call(self, f: FuncInfo, call: ast.Call) -> list["FuncInfo | str"]:
         fn = call.func
         # super().m(...)
         if isinstance(fn, ast.Attribute) and isinstance(fn.value, ast.Call) and dotted(fn.value.func) == "super":
